@@ -299,7 +299,7 @@ def run(ctx):
         check_cross(ctx, h0, h1)
     for _ in range(ctx.share(n // 4)):
         check_station_seam(ctx, {"clause": "station-seam", "alt_ft": round(rng.uniform(-1000, 15000), 1),
-                                 "p_hpa": round(rng.uniform(550, 1080), 2), "t_c": round(rng.uniform(-40, 45), 2),
+                                 "p_hpa": round(rng.uniform(500, 1100), 2), "t_c": round(rng.choice([rng.uniform(-40, 45), rng.uniform(-60, 60), rng.uniform(-60, -55)]), 2),
                                  "rh": round(rng.uniform(0, 100), 1)})
     for _ in range(ctx.share(4 * n)):
         conv = rng.choice(["fraction", "percent"])
